@@ -62,6 +62,53 @@ type rw struct {
 	io.Writer
 }
 
+// a subprotocol selector over a long accept list, built ONCE by the application (per server start: anew before the
+// sessions are run alone and before every concurrent round) and shared by every connection's upgrader
+var sharedSelect func(string) bool
+
+func newSharedSelect() func(string) bool {
+	var accept []string
+	for i := 0; i < 40; i++ {
+		accept = append(accept, fmt.Sprintf("big.proto.%02d", i))
+	}
+	return ws.SelectFromSlice(accept)
+}
+
+// one message (above the byte pool's largest class) that every client session sends from the SAME read-only slice
+var sharedBig = func() []byte {
+	b := make([]byte, 65537+300)
+	for i := range b {
+		b[i] = byte(i*7 + i>>8)
+	}
+	return b
+}()
+
+// sharedUpgrade: the first thing an upgrading session does - a handshake through the shared selector
+func (s *session) sharedUpgrade(r *rng) {
+	s.ops++
+	want := fmt.Sprintf("big.proto.%02d", 17+s.idx%20)
+	req := fmt.Sprintf("GET /shared HTTP/1.1\r\nHost: h\r\nUpgrade: websocket\r\nConnection: Upgrade\r\nSec-WebSocket-Version: 13\r\n"+
+		"Sec-WebSocket-Key: %s\r\nSec-WebSocket-Protocol: nope.%d, %s, big.proto.01\r\n\r\n", base64.StdEncoding.EncodeToString(r.bytes(16)), s.idx, want)
+	var out bytes.Buffer
+	hs, err := ws.Upgrader{Protocol: func(p []byte) bool { return sharedSelect(string(p)) }}.Upgrade(rw{strings.NewReader(req), &out})
+	if err != nil || hs.Protocol != want {
+		s.fail("shared selector: protocol %q (want %q) err %v", hs.Protocol, want, err)
+	}
+	s.rec("shared-upgrade proto=%s err=%v", hs.Protocol, err)
+}
+
+// sharedSend: the same read-only slice written by every client session: a Write larger than the (empty) buffer
+func (s *session) sharedSend() {
+	s.ops++
+	var wire bytes.Buffer
+	w := wsutil.NewWriterSize(&wire, ws.StateClientSide, ws.OpBinary, 512)
+	_, err := w.Write(sharedBig)
+	if err == nil {
+		err = w.Flush()
+	}
+	s.rec("shared-send err=%v payload=%s", err, unmaskFrames(wire.Bytes()))
+}
+
 // the ONE dialer value every client session uses (by value, like ws.DefaultDialer)
 var sharedDialer = ws.Dialer{
 	Protocols: []string{"chat", "superchat", "v2.proto"},
@@ -300,6 +347,7 @@ type keptHS struct {
 
 func (s *session) upgrader(r *rng, steps int) {
 	var kept []keptHS
+	s.sharedUpgrade(r)
 	for k := 0; k < steps; k++ {
 		s.ops++
 		want := fmt.Sprintf("proto.s%03d.k%03d.%x", s.idx, k, r.next()&0xffff)
@@ -401,6 +449,7 @@ func (w *hjWriter) Hijack() (net.Conn, *bufio.ReadWriter, error) {
 
 func (s *session) httpUpgrader(r *rng, steps int) {
 	var kept []keptHS
+	s.sharedUpgrade(r)
 	for k := 0; k < steps; k++ {
 		s.ops++
 		want := fmt.Sprintf("hp.s%03d.k%03d", s.idx, k)
@@ -519,6 +568,7 @@ func (s *session) messages(r *rng, steps int) {
 		want string
 	}
 	var kept []keptMsg
+	s.sharedSend()
 	for k := 0; k < steps; k++ {
 		s.ops++
 		n := sizes[r.intn(len(sizes))]
@@ -689,6 +739,7 @@ func main() {
 		return &session{idx: i, kind: mix[i%len(mix)], seed: seed*1000003 + uint64(i)*7919}
 	}
 	// alone
+	sharedSelect = newSharedSelect()
 	solo := make([]*session, n)
 	for i := 0; i < n; i++ {
 		solo[i] = mk(i)
@@ -707,6 +758,7 @@ func main() {
 		}
 	}
 	for round := 0; round < rounds; round++ {
+		sharedSelect = newSharedSelect()
 		conc := make([]*session, n)
 		var wg sync.WaitGroup
 		start := make(chan struct{})
